@@ -25,7 +25,9 @@ import (
 	"verif/ref/h2wire"
 )
 
-func baseOpts() bubble.StackOpts { return bubble.StackOpts{HandshakeTimeout: 10 * time.Second} }
+func baseOpts() bubble.StackOpts {
+	return bubble.StackOpts{HandshakeTimeout: 10 * time.Second, Warm: true}
+}
 
 func diff(a, b []string) (extra []string) {
 	cnt := map[string]int{}
@@ -340,7 +342,7 @@ func binaryStackR(hs, idle, read string) bubble.StackOpts {
 
 func binaryStackRW(hs, idle, read, write string) bubble.StackOpts {
 	fingerproxy.VerifSetFlags(fingerproxy.VerifFlags{Probe: true, Flush: "100ms", Idle: idle, Read: read, Write: write, TLSHandshake: hs})
-	return bubble.StackOpts{Build: func(ctx context.Context, h http.Handler, tc *tls.Config) *proxyserver.Server {
+	return bubble.StackOpts{Warm: true, Build: func(ctx context.Context, h http.Handler, tc *tls.Config) *proxyserver.Server {
 		return fingerproxy.VerifDefaultProxyServer(ctx, h, tc)
 	}}
 }
@@ -546,10 +548,11 @@ func timeouts(t *testing.T, rep *ev.Report) {
 func handoff(t *testing.T, rep *ev.Report) {
 	run := func(c *mc.Chooser) (out mc.Outcome) {
 		res := bubble.Run(t, func() {
-			gates := bubble.NewGates("proxyserver.serveConn.handshook", "proxyserver.serveConn.beforeSend", "proxyserver.serveConn.served")
-			defer gates.Uninstall()
+			// the stack (with its warm-up connections) first, the gates afterwards: warm-up connections must not park
 			st := bubble.NewStack(baseOpts())
 			synctest.Wait()
+			gates := bubble.NewGates("proxyserver.serveConn.handshook", "proxyserver.serveConn.beforeSend", "proxyserver.serveConn.served")
+			defer gates.Uninstall()
 			base := bubble.SUT()
 			var cl *bubble.Client
 			actors := []*bubble.Actor{
